@@ -41,12 +41,20 @@ def run(tier, seed):
         r['edges'] += r4['edges']
     for viol in res['violations']:
         v.violation(viol['sig'], viol.get('replay'))
+    # the manifest a host scanned is what every receiver of the session is served from: real transfers to two receivers
+    # in a row must leave it as it was (entries, order, counts)
+    rs = vlib.run_vh_sharded(['xfer-special', '-seed', '1', '-groups', 'resend'], 8, timeout=900)
+    for viol in rs['violations']:
+        if viol['sig'].get('property') == PROP:
+            sig = dict(viol['sig'])
+            sig.pop('property', None)
+            v.violation(sig, viol.get('replay'))
     if res['drift']:
         print("DRIFT C13: %d lists where the real manifest differs from Scan.tla's expected manifest (not a verdict)" % res['drift'])
         v.notes.append(str(res['drift_samples'][:1])[:500])
     v.coverage = dict(evaluations=res['behaviours'], distinct_nontrivial=res['distinct'],
                       rule="TLC enumerates every list of 1..%d paths over 10 candidates" % maxlist + " of the universe forest; non-trivial = lists with more than one path",
-                      samples=res['samples'][:6], outcomes=res['extra'].get('outcomes'), exhaustive=True,
+                      samples=res['samples'][:6], outcomes=res['extra'].get('outcomes'), exhaustive=True, one_manifest_two_receivers=dict(runs=rs['behaviours'], outcomes=rs['extra'].get('outcomes')),
                       tlc=dict(lists=r['edges'], unique_violated_in_the_design=ru['violated'],
                                note="Unique is violated at design level by the ordinal-prefix scheme (known finding F-C13-1)"),
                       manifest_drift=res['drift'])
